@@ -14,7 +14,7 @@
   * a square index outside `0..63` makes Go panic (index out of range); the model returns `0`;
   * a magic index outside the `[512]` / `[4096]` inner array makes Go panic (at init or at lookup); the
     model ignores such a write and reads `0`.  The C12 proofs show that neither happens for `sq < 64`;
-  * Go loops without a static bound are given fuel (8 for a ray, 2^64 for the subset walk, which
+  * Go loops without a static bound are given fuel (7 body executions for a ray, 8 for the in-between loop, 2^64 for the subset walk, which
     returns to its start after `2^popcount(mask)` steps).
 -/
 import ChessVerif.Basic
@@ -50,7 +50,8 @@ def knightMoves (sq : Nat) : BB := knightTbl.getD sq 0
 /-- One Go ray loop
     `for rr, ff := r0, f0; cond(rr, ff); { result |= 1 << (ff + rr*8); if occ&(1<<(ff+rr*8)) != 0 { break }; rr += dr; ff += df }`
     started with the already advanced coordinates.  `cond` is the loop condition as written in Go
-    (it tests only the board edges the ray moves towards).  Fuel 8: a ray has at most 7 squares. -/
+    (it tests only the board edges the ray moves towards).  Fuel: a ray has at most 7 squares, so
+    the Go loop body runs at most 7 times (the 8th test of the condition fails). -/
 def walkLoop (occ : BB) (cond : Int → Int → Bool) (df dr : Int) : Nat → Int → Int → BB → BB
   | 0, _, _, res => res
   | fuel + 1, ff, rr, res =>
@@ -63,7 +64,7 @@ def walkLoop (occ : BB) (cond : Int → Int → Bool) (df dr : Int) : Nat → In
 
 /-- One ray of a walker: the loop initialised with `rr, ff := r+dr, f+df`. -/
 @[inline] def walk (occ : BB) (cond : Int → Int → Bool) (f r df dr : Int) (res : BB) : BB :=
-  walkLoop occ cond df dr 8 (f + df) (r + dr) res
+  walkLoop occ cond df dr 7 (f + df) (r + dr) res
 
 /-- `func calcBishopAttacks(sq Square, occ BitBoard) BitBoard` -/
 def calcBishopAttacks (sq : Nat) (occ : BB) : BB :=
